@@ -72,7 +72,9 @@ func Explore(c *vk.Ctx, cfg Config) (Result, bool) {
 			if cfg.Outcome != nil {
 				o2 = cfg.Outcome(y)
 			}
-			if f2 != failure || o2 != out || fmt.Sprint(y.Choices) != fmt.Sprint(x.Choices) {
+			// (a schedule that fails the same way both times is left to the confirmation below even if the two
+			// runs passed different scheduling points: state left behind by the failure itself may do that)
+			if (f2 != failure || o2 != out || fmt.Sprint(y.Choices) != fmt.Sprint(x.Choices)) && !(failure != "" && f2 == failure) {
 				vk.Fatalf("non-deterministic replay in %s: schedule %v gave (%q,%q) then (%q,%q)", cfg.Scenario.Name, x.Choices, failure, out, f2, o2)
 			}
 		}
